@@ -501,6 +501,70 @@ func (p *Part[C]) Run(s *Session, checks int) {
 	}
 }
 
+// RunConcurrent evaluates generated cases from several goroutines at once (each goroutine its own cases). The
+// properties quantify over inputs, but callers are free to use the library from several goroutines; a result that
+// is only wrong when other callers are active (a shared scratch buffer, a pooled object handed out twice, lazily
+// initialised state) must not hide behind a single-threaded harness. Cases are drawn deterministically up front.
+func (p *Part[C]) RunConcurrent(s *Session, goroutines, perG int) {
+	if s.Aborted() || s.Failed() || goroutines < 2 || perG < 1 {
+		return
+	}
+	if !Thorough() && Shard()%4 != 0 { // quick tier: a quarter of the shard processes, so that the goroutines really run in parallel
+		return
+	}
+	gen := rapid.Custom(p.Gen)
+	base := int(rapidSeed(p.Name+"/concurrent") % 1000000007)
+	cases := make([]C, goroutines*perG)
+	ok := s.Guard(func() {
+		for i := range cases {
+			cases[i] = gen.Example(base + i)
+		}
+	})
+	if !ok {
+		return
+	}
+	var wg sync.WaitGroup
+	var mu sync.Mutex
+	var firstErr error
+	var firstCase C
+	start := make(chan struct{})
+	for g := 0; g < goroutines; g++ {
+		wg.Add(1)
+		go func(g int) {
+			defer wg.Done()
+			defer func() {
+				if pv := recover(); pv != nil {
+					s.Abort(fmt.Sprintf("harness panic in concurrent evaluation: %v\n%s", pv, debug.Stack()))
+				}
+			}()
+			<-start
+			for i := 0; i < perG; i++ {
+				mu.Lock()
+				stop := firstErr != nil
+				mu.Unlock()
+				if stop || s.Aborted() {
+					return
+				}
+				c := cases[g*perG+i]
+				if err := p.Eval(c, s.Rec); err != nil {
+					mu.Lock()
+					if firstErr == nil {
+						firstErr, firstCase = err, c
+					}
+					mu.Unlock()
+					return
+				}
+			}
+		}(g)
+	}
+	close(start)
+	wg.Wait()
+	if firstErr != nil {
+		s.Violation(p.Name, firstCase, fmt.Errorf("while %d goroutines evaluated independent cases concurrently (GOMAXPROCS=%d): %w", goroutines, runtime.GOMAXPROCS(0), firstErr))
+	}
+	s.Rec.LabelN("concurrent_callers_cases", len(cases))
+}
+
 // testingTB wraps *testing.T so that rapid's own failure report does not fail the
 // test directly; the session decides the outcome (violation vs inconclusive).
 type testingTB struct {
